@@ -7,7 +7,7 @@ SGNS = ['p', 'n', 'm']
 
 
 # ------------------------------------------------------------------------------------------------ core rules (C01/C02)
-def core_body_lit(rng, atoms, future_ok=False, maxpast=2, maxfut=2):
+def core_body_lit(rng, atoms, future_ok=False, maxpast=3, maxfut=2):
     s = rng.choice(SGNS)
     k = rng.random()
     if future_ok and k < 0.35:
@@ -15,7 +15,7 @@ def core_body_lit(rng, atoms, future_ok=False, maxpast=2, maxfut=2):
     if k < 0.5:
         return (s, ('patom', rng.choice(atoms), 0))
     if k < 0.75:
-        return (s, ('patom', rng.choice(atoms), rng.randint(1, maxpast)))
+        return (s, ('patom', rng.choice(atoms), rng.choice([1, 1, 2, 2, 3, 4][:maxpast + 2] if maxpast >= 3 else list(range(1, maxpast + 1)))))
     if k < 0.87:
         return (s, ('iatom', rng.choice(atoms)))
     return (s, ('kw', rng.choice(['initial', 'final', 'initial', 'final', 'true', 'false'])))
@@ -65,7 +65,7 @@ def exhaustive_core(atoms=('a', 'b')):
              ('kw', 'initial'), ('kw', 'final'), ('kw', 'true'), ('kw', 'false')]
     lits = [None]
     for s in SGNS:
-        lits += [(s, ('patom', b, 0)), (s, ('patom', b, 1)), (s, ('patom', b, 2)), (s, ('iatom', b)), (s, ('kw', 'initial')), (s, ('kw', 'final')),
+        lits += [(s, ('patom', b, 0)), (s, ('patom', b, 1)), (s, ('patom', b, 2)), (s, ('patom', b, 3)), (s, ('iatom', b)), (s, ('kw', 'initial')), (s, ('kw', 'final')),
                  (s, ('kw', 'true')), (s, ('kw', 'false'))]
     ctxs = [[{'part': 'always', 'head': ('choice', [b]), 'body': []}],
             [{'part': 'initial', 'head': ('choice', [b]), 'body': []}, {'part': 'dynamic', 'head': ('choice', [a, b]), 'body': []}]]
